@@ -123,13 +123,13 @@ func VerifC03_History() {
 
 // VerifC03_Quiet: like VerifC03_History but the verdict is only queried at the end
 // (queries repair the lookup index, so histories without intermediate queries reach
-// other states); one more step.
+// other states); one more step than VerifC03_History's quick tier.
 //
 //vf:quick unwind=16 decisions=400 paths=400000
 //vf:thorough unwind=24 decisions=600 paths=4000000
 //vf:expect reach=inhibited reach=not-inhibited reach=gc reach=resolved
 func VerifC03_Quiet() {
-	hHistory03(4+vfTier(), false)
+	hHistory03(4, false) // (thorough: the full menus of rules, targets and sources instead of one more step)
 }
 
 func hHistory03(k int, checkEachStep bool) {
